@@ -32,8 +32,9 @@ Definition fvdiv (x : cvec) (c : cf) : cvec := map (fun a => fdiv a c) x.
 Definition fvdot (x y : cvec) : cf := fold_left (fun acc p => fadd acc (fmul (fconj (fst p)) (snd p))) (combine x y) f0.
 Definition fvnrm (x : cvec) : cf := (PrimFloat.sqrt (fold_left (fun acc a => acc + (fst a * fst a + snd a * snd a)) x 0), 0).
 
+Definition fhyp (a b : cf) : cf := (PrimFloat.sqrt ((fst a * fst a + snd a * snd a) + (fst b * fst b + snd b * snd b)), 0).
 Definition fops (n : nat) : kops cf cvec :=
-  mk_kops cf cvec f0 f1 fadd fmul fsub fopp fdiv finv fconj fgtb (repeat f0 n) fvadd fvsub fvscale fvdiv fvdot fvnrm.
+  mk_kops cf cvec f0 f1 fadd fmul fsub fopp fdiv finv fconj fgtb (repeat f0 n) fvadd fvsub fvscale fvdiv fvdot fvnrm fhyp.
 
 (* dense matrix (list of rows) times vector *)
 Definition fmv (A : list cvec) (x : cvec) : cvec :=
@@ -53,7 +54,7 @@ Definition mdiff (x y : list cvec) : float :=
 Definition vmaxabs (x : cvec) : float := fold_left (fun acc a => fmax acc (cabs1 a)) x 0.
 
 Record lcase := mk_lcase {
-  l_n : nat; l_A : list cvec; l_alias : bool; l_vs : list cvec; l_mi : nat; l_tol : float;
+  l_n : nat; l_A : list cvec; l_alias : bool; l_rfix : bool; l_vs : list cvec; l_mi : nat; l_tol : float;
   l_k : nat;                                   (* number of columns returned by the implementation *)
   l_out : list (list cvec * cvec * cvec) }.    (* per batch element: columns of Q, off-diagonal of T, diagonal of T *)
 
@@ -63,11 +64,11 @@ Definition amp_tol : float := 0x1.47ae147ae147bp-7. (* 1e-2 *)
 
 (* decisions taken by cond_fun at loop indices 2 .. min(i_final, m), recomputed from the final subdiag buffers
    (entries are never overwritten): is one of them within relative 1e-6 of flipping? *)
-Definition near_tie (tol : float) (m ifin : nat) (ss : list (@lst cf cvec)) : bool :=
+Definition near_tie (rfix : bool) (tol : float) (m ifin : nat) (ss : list (@lst cf cvec)) : bool :=
   existsb (fun s =>
     existsb (fun j =>
       let x := fst (nth (j - 1) (lsub s) f0) in
-      let y := tol * fst (nth 1 (lsub s) f0) in
+      let y := tol * fst (lref (fops 0) rfix s) in
       PrimFloat.abs (x - y) <? tie_tol * fmax (PrimFloat.abs x) (PrimFloat.abs y))
     (seq 2 (Nat.min ifin m - 1))) ss.
 (* was a pending vector much smaller than the scale of T normalised into a basis column? then rounding noise is
@@ -87,14 +88,14 @@ Definition res_close (r : @lres cf cvec) (q : list cvec * cvec * cvec) : bool :=
 Definition lcheck (c : lcase) : nat :=
   let o := fops (l_n c) in
   let m := Nat.min (l_mi c) (l_n c) in
-  let r := lfact o (fmv (l_A c)) (l_alias c) m (l_tol c, 0) (l_vs c) in
+  let r := lfact o (fmv (l_A c)) (l_alias c) (l_rfix c) m (l_tol c, 0) (l_vs c) in
   let iters := (fst r - 1)%nat in
   let out := map (ltrim iters) (snd r) in
   let same_k := Nat.eqb iters (l_k c) in
   let close := Nat.eqb (length out) (length (l_out c)) && forallb (fun p => res_close (fst p) (snd p)) (combine out (l_out c)) in
   if amplified iters (snd r) then 2%nat
   else if same_k && close then 0%nat
-  else if near_tie (l_tol c) m (fst r) (snd r) then 1%nat
+  else if near_tie (l_rfix c) (l_tol c) m (fst r) (snd r) then 1%nat
   else if negb same_k then 3%nat else 4%nat.
 
 Fixpoint codes (k : nat) (cs : list lcase) : list (nat * nat) :=
@@ -107,7 +108,7 @@ Fixpoint codes (k : nat) (cs : list lcase) : list (nat * nat) :=
 Definition ldiff (c : lcase) : float :=
   let o := fops (l_n c) in
   let m := Nat.min (l_mi c) (l_n c) in
-  let r := lfact o (fmv (l_A c)) (l_alias c) m (l_tol c, 0) (l_vs c) in
+  let r := lfact o (fmv (l_A c)) (l_alias c) (l_rfix c) m (l_tol c, 0) (l_vs c) in
   let iters := (fst r - 1)%nat in
   let out := map (ltrim iters) (snd r) in
   fold_left (fun acc p =>
@@ -122,7 +123,7 @@ Definition maxdiff_agreeing (cs : list lcase) : float :=
 Definition lcheck_plain (c : lcase) : nat :=
   let o := fops (l_n c) in
   let m := Nat.min (l_mi c) (l_n c) in
-  let r := lfact o (fmv (l_A c)) (l_alias c) m (l_tol c, 0) (l_vs c) in
+  let r := lfact o (fmv (l_A c)) (l_alias c) (l_rfix c) m (l_tol c, 0) (l_vs c) in
   let iters := (fst r - 1)%nat in
   let out := map (ltrim iters) (snd r) in
   if Nat.eqb iters (l_k c) && Nat.eqb (length out) (length (l_out c)) && forallb (fun p => res_close (fst p) (snd p)) (combine out (l_out c))
@@ -140,7 +141,7 @@ Definition tail_small (tolv : float) (l : cvec) (k : nat) : bool := forallb (fun
 Definition lcheck_elem (c : lcase) : nat :=
   let o := fops (l_n c) in
   let m := Nat.min (l_mi c) (l_n c) in
-  let r := lfact o (fmv (l_A c)) (l_alias c) m (l_tol c, 0) (l_vs c) in
+  let r := lfact o (fmv (l_A c)) (l_alias c) (l_rfix c) m (l_tol c, 0) (l_vs c) in
   let iters := (fst r - 1)%nat in
   match map (ltrim iters) (snd r), l_out c with
   | [r1], [(Q, off, dg)] =>
@@ -151,7 +152,7 @@ Definition lcheck_elem (c : lcase) : nat :=
                 && tail_small (rtol * scale) off (iters - 1) && tail_small (rtol * scale) dg iters in
       if amplified iters (snd r) then 2%nat
       else if ok then 0%nat
-      else if near_tie (l_tol c) m (fst r) (snd r) then 1%nat
+      else if near_tie (l_rfix c) (l_tol c) m (fst r) (snd r) then 1%nat
       else if (iters <=? l_k c)%nat then 4%nat else 3%nat
   | _, _ => 4%nat
   end.
